@@ -430,6 +430,27 @@ COMPONENTS = {
     },
 }
 
+# In-situ projections (DESIGN.md section 13): the layers of a real stack, each validated against its own specification.
+# One harness command per layer; the runs depend on (seed, run, size) only.
+def _insitu(comp, layer, stack='S1', quick=300, thorough=4000):
+    base = COMPONENTS[comp]
+    return {
+        'spec_files': base['spec_files'], 'mc': {'quick': [], 'thorough': []},
+        'trace_module': base['trace_module'], 'trace_cfg_tmpl': base['trace_cfg_tmpl'],
+        'harness': 'insitu', 'corrupt': base['corrupt'],
+        'random': {'quick': [{'runs': quick, 'args': ['--variant', '%s:%d' % (stack, layer)]}],
+                   'thorough': [{'runs': thorough, 'size': 'thorough', 'args': ['--variant', '%s:%d' % (stack, layer)]},
+                                {'runs': thorough // 2, 'size': 'quick', 'args': ['--variant', '%s:%d' % (stack, layer)]}]},
+    }
+
+
+COMPONENTS['insitu_timelimiter'] = _insitu('timelimiter', 1)
+COMPONENTS['insitu_circuitbreaker'] = _insitu('circuitbreaker', 2)
+COMPONENTS['insitu_bulkhead'] = _insitu('bulkhead', 3)
+COMPONENTS['insitu2_timelimiter'] = _insitu('timelimiter', 1, 'S2')
+COMPONENTS['insitu_fallback'] = _insitu('fallback', 2, 'S2')
+COMPONENTS['insitu_retry'] = _insitu('retry', 3, 'S2')
+
 PROPS = {
     'C01': {'comp': 'bulkhead', 'profile': 'ProfC01', 'drift_profile': 'ProfAll',
             # second batch: late polls (time may pass although somebody is runnable) - C01 does not depend on promptness
@@ -455,10 +476,36 @@ PROPS = {
     'C18': {'comp': 'health', 'profile': 'full'},
     'C19': {'comp': 'chaos', 'profile': 'full'},
     'C17': {'comp': 'fallback', 'profile': 'full'},
-    'C20': {'parts': [{'comp': 'stacks', 'profile': 'transparent+readiness'}, {'comp': 'listeners', 'profile': 'listeners'}, {'comp': 'executor', 'profile': 'executor'}]},
+    'C20': {'parts': [{'comp': 'stacks', 'profile': 'transparent+readiness'}, {'comp': 'listeners', 'profile': 'listeners'}, {'comp': 'executor', 'profile': 'executor'},
+                      # a stack in triggering configurations: every layer conforms to its own specification in situ
+                      {'comp': 'insitu_timelimiter', 'profile': 'full'}, {'comp': 'insitu_circuitbreaker', 'profile': 'ProfAll'},
+                      {'comp': 'insitu_bulkhead', 'profile': 'ProfBoth'},
+                      {'comp': 'insitu2_timelimiter', 'profile': 'full'}, {'comp': 'insitu_fallback', 'profile': 'full'}, {'comp': 'insitu_retry', 'profile': 'full'}]},
     'C02': {'comp': 'ratelimiter', 'profile': 'ProfC02', 'drift_profile': 'ProfAll',
             # second batch: waiters polled late - the bound on admissions does not depend on promptness
             'random': {'quick': [{'runs': 1500}, {'runs': 700, 'args': ['--variant', 'lazy']}],
                        'thorough': [{'runs': 20000}, {'runs': 5000, 'size': 'quick'}, {'runs': 8000, 'args': ['--variant', 'lazy']}]}},
     'C15': {'comp': 'ratelimiter', 'profile': 'ProfC15', 'drift_profile': 'ProfAll'},
 }
+
+
+def _add_insitu(prop, comp, profile):
+    P = PROPS[prop]
+    if 'parts' not in P:
+        part = {k: v for k, v in P.items() if k not in ('assumptions', 'custom')}
+        PROPS[prop] = {k: v for k, v in P.items() if k in ('assumptions', 'custom')}
+        PROPS[prop]['parts'] = [part]
+    PROPS[prop]['parts'].append({'comp': comp, 'profile': profile})
+
+
+# every layer of the in-situ stack is also checked under the profile of its own properties: there its
+# environment is not the harness but real neighbouring layers (immediate answers, cancellations by a time limiter)
+_add_insitu('C06', 'insitu_timelimiter', 'full')
+_add_insitu('C06', 'insitu2_timelimiter', 'full')
+_add_insitu('C05', 'insitu_retry', 'full')
+_add_insitu('C17', 'insitu_fallback', 'full')
+_add_insitu('C01', 'insitu_bulkhead', 'ProfC01')
+_add_insitu('C07', 'insitu_bulkhead', 'ProfC07')
+_add_insitu('C03', 'insitu_circuitbreaker', 'ProfC03')
+_add_insitu('C04', 'insitu_circuitbreaker', 'ProfC04')
+_add_insitu('C09', 'insitu_circuitbreaker', 'ProfC09')
